@@ -143,9 +143,17 @@ def storedSelecting (cfg : Cfg) (reqH : Header) (r : Resp) : List (Str × Str) :
 def NamedWrites (cfg : Cfg) (reqH : Header) (r : Resp) (key : Str) (refs : List Ref) (tr1 : List Step) : Prop :=
   tr1 = [] ∨
   (∃ en, tr1 = [.setEntry (makeVaryKey key (storedSelecting cfg reqH r)) en false]) ∨
-  (∃ en rs ok, tr1 = [.setEntry (makeVaryKey key (storedSelecting cfg reqH r)) en true, .setRefs key rs ok] ∧
+  (∃ en rs ok post, tr1 = [.setEntry (makeVaryKey key (storedSelecting cfg reqH r)) en true, .setRefs key rs ok] ++ post ∧
     en.id = makeVaryKey key (storedSelecting cfg reqH r) ∧
-    ∀ x ∈ rs, x ∈ refs ∨ (x.id = makeVaryKey key (storedSelecting cfg reqH r) ∧ x.resolved = storedSelecting cfg reqH r))
+    (∀ x ∈ rs, x ∈ refs ∨ (x.id = makeVaryKey key (storedSelecting cfg reqH r) ∧ x.resolved = storedSelecting cfg reqH r)) ∧
+    -- then nothing, or the removal of the response the replaced reference named, which no reference of the new index names
+    (post = [] ∨ ∃ old, post = [.delete old] ∧ ∀ x ∈ rs, x.id ≠ old))
+
+theorem placed_refs_named (refs : List Ref) (ri : Option Nat) (ref : Ref) :
+    ∀ x ∈ dedupeRefs (placeRef refs ri ref).1 (placeRef refs ri ref).2 ref, x ∈ refs ∨ x = ref := by
+  intro x hx
+  have hx1 := mem_dedupe _ _ _ _ hx
+  exact mem_placeRef _ _ _ _ hx1
 
 theorem storeResponse_names (cfg : Cfg) (reqH : Header) (r : Resp) (bodyOk : Bool) (key : Str) (refs : List Ref)
     (reqT respT : Int) (ri : Option Nat) (k : Resp → Prog) (tr : List Step) (res : Result)
@@ -170,23 +178,33 @@ theorem storeResponse_names (cfg : Cfg) (reqH : Header) (r : Resp) (bodyOk : Boo
         subst this
         cases h1 with
         | setRefs ok2 h2 =>
-          refine ⟨[_, _], _, rfl, Or.inr (Or.inr ⟨_, _, ok2, rfl, rfl, ?_⟩), h2⟩
-          intro x hx
-          have hx1 := mem_dedupe _ _ _ _ hx
-          rcases mem_placeRef _ _ _ _ hx1 with hx2 | hx2
-          · exact Or.inl hx2
-          · right; subst hx2; exact ⟨rfl, rfl⟩
+          dsimp only at h2
+          rcases dropReplaced_run _ _ _ _ _ _ _ h2 with hk | ⟨old, tr', e, hk, _, _, _, hnot⟩
+          · refine ⟨[_, _], _, rfl, Or.inr (Or.inr ⟨_, _, ok2, [], rfl, rfl, ?_, Or.inl rfl⟩), hk⟩
+            intro x hx
+            rcases placed_refs_named _ _ _ x hx with hx2 | hx2
+            · exact Or.inl hx2
+            · right; subst hx2; exact ⟨rfl, rfl⟩
+          · subst e
+            refine ⟨[_, _, _], _, rfl, Or.inr (Or.inr ⟨_, _, ok2, [_], rfl, rfl, ?_, Or.inr ⟨old, rfl, hnot⟩⟩), hk⟩
+            intro x hx
+            rcases placed_refs_named _ _ _ x hx with hx2 | hx2
+            · exact Or.inl hx2
+            · right; subst hx2; exact ⟨rfl, rfl⟩
 
 /-- the naming invariant of an index is preserved by StoreResponse -/
 theorem namedWrites_keep_naming (cfg : Cfg) (reqH : Header) (r : Resp) (key : Str) (refs : List Ref) (tr1 : List Step)
     (hn : ∀ x ∈ refs, RefNamed key x) (hw : NamedWrites cfg reqH r key refs tr1) :
     ∀ k' rs ok, Step.setRefs k' rs ok ∈ tr1 → k' = key ∧ ∀ x ∈ rs, RefNamed key x := by
   intro k' rs ok hm
-  rcases hw with hw | ⟨en, hw⟩ | ⟨en, rs', ok', hw, _, hall⟩
+  rcases hw with hw | ⟨en, hw⟩ | ⟨en, rs', ok', post, hw, _, hall, hpost⟩
   · subst hw; cases hm
   · subst hw; simp at hm
   · subst hw
-    simp only [List.mem_cons, reduceCtorEq, Step.setRefs.injEq, List.not_mem_nil, or_false, false_or] at hm
+    have hm : Step.setRefs k' rs ok = Step.setRefs key rs' ok' := by
+      rcases hpost with hp | ⟨old, hp, _⟩ <;> subst hp <;>
+        simpa only [List.cons_append, List.nil_append, List.mem_cons, reduceCtorEq, List.not_mem_nil, or_false, false_or] using hm
+    simp only [Step.setRefs.injEq] at hm
     obtain ⟨h1, h2, _⟩ := hm
     subst h1; subst h2
     refine ⟨rfl, ?_⟩
